@@ -50,6 +50,11 @@ CLAIMED["C06"] = dict(engine="restore", technique="TLA+ function specification w
     note="Trees of depth 2 with at most 2 root entries and 1 (quick) / 2 (thorough) entries per sub-directory; contents '' 'x' ('y'); xxh3 on all cases, sha256 on a sample. Trusted: TLC, the harness's materialise/listing functions, running as root (permission-based priors do not obstruct).")
 CLAIMED["C04"]["text"] += " Directory restore: DirLoad.tla models the per-file download goroutines, the error channel and WaitGroup of DirectoryOutputHandler.Load; TLC checks deadlock freedom and FaultIsError for every subset of unreadable blobs; the real Load is then driven with every fault subset on flat, nested and mixed directories inside a synctest bubble and must return an error (or the exact tree when nothing is faulty)."
 
+CLAIMED["C11"] = dict(engine="analysis", technique="TLA+ specification of graph validity enumerated exhaustively over four bounded families by TLC; every graph rendered to BUILD files and replayed into the real loader/analysis pipeline and (sample) the CLI (enumerated-case conformance)",
+    category="model_checking", design_ref="DESIGN.md section 4.7, section 7 C11",
+    text="Analysis.tla defines Valid from the property text (undefined dependency, cycles incl. self and through aliases, duplicate labels, overlapping outputs of targets not ordered by dependency after path normalisation, inputs escaping the package, outputs escaping the workspace, non-test target depending on test/testonly targets with aliases resolved) independently of internal/analysis; every graph of the families is one TLC state and is rendered to BUILD.json/BUILD.yaml files and pushed through the real loader, BuildNodeMapFromPackages, BuildGraph and CheckTargetConstraints; accept/reject must equal Valid. A sample goes through `grog check` and `grog build`: exit status must agree and nothing may run on a rejected graph.",
+    note="Family A: 3 nodes, targets/aliases, deps over {n1,n2,n3,undefined}, plain/test/testonly (140 608 graphs; quick: every 7th); B: 3 targets in p, p, p/d, 5 dependency shapes, 10/13 output spellings (./, a/../b, trailing slash, nested package, ../, absolute, dir::, docker::); C: all subsets of 7 input spellings; D: 7 duplicate layouts. Trusted: TLC, the renderer in harness/cmd/h/analysis.go.")
+
 PENDING = "check not built yet in this round (specification and binding planned in DESIGN.md section 7); not claimed until its quick tier is registered"
 
 checks, na = [], []
@@ -87,6 +92,7 @@ manifest = {
    {"name": "history", "path": "spec/GrogBuild.tla + spec/GrogBuildGen.tla + vlib/build_engine.py + vlib/checks/_hist.py", "serves_properties": ["C01", "C02", "C05", "C13", "C14", "C15"], "kind_free_text": "exhaustive TLC over histories; TLC-generated behaviours replayed into the real binary"},
    {"name": "keys", "path": "spec/KeyEncoding.tla + harness/cmd/h/keys.go + vlib/checks/c09.py", "serves_properties": ["C09"], "kind_free_text": "TLC-enumerated universe of key states, real hashing compared by partition"},
    {"name": "restore", "path": "spec/Restore.tla + spec/DirLoad.tla + harness/restoredrv + vlib/checks/c06.py", "serves_properties": ["C06", "C04"], "kind_free_text": "TLC-enumerated restore cases replayed into the real handlers; read-fault subsets under synctest"},
+   {"name": "analysis", "path": "spec/Analysis.tla + harness/cmd/h/analysis.go + vlib/checks/c11.py", "serves_properties": ["C11"], "kind_free_text": "TLC-enumerated graph families replayed into the real loader/analysis and the CLI"},
    {"name": "labels", "path": "spec/Labels.tla + harness/cmd/h/labels.go + vlib/checks/c17.py", "serves_properties": ["C17"], "kind_free_text": "TLC-enumerated function specification, reference table replayed into the real API"},
  ],
  "checks": checks,
